@@ -1,3 +1,4 @@
+import RjModel.Lemmas.SyncLemmas
 import RjModel.Model.FileRecv
 /-! # C08 — an interrupted or failed sync can always be repaired by running it again
 (the doer never leaves a file that carries the source's modification time but different bytes) -/
@@ -128,5 +129,25 @@ example :
       (transferStates true ⟨some ⟨[9, 9, 9, 9, 9, 9, 9], .old⟩, false, false, 0⟩ (cs.zip [.none, .none, .none]))).file
         = some ⟨[1, 2, 3, 4, 5], .src⟩ := by
   decide
+
+/-- **Recovery, on the file-system model.**  Whatever state an interrupted or failed run left behind —
+any tree-closed destination: files cut short, left-over entries, missing folders — running the sync
+again (overwriting permitted) ends `ok` in the mirror state; and a destination file whose time stamp is
+**not** the source's (which `C08_no_stamped_garbage` shows for every incomplete file) ends up holding
+exactly the source's bytes and time. -/
+theorem C08_recovery_fs {fs0 : FS} {r : FPath} {ld : List (FPath × Node)} {src : FPath → Option SEntry}
+    {ls : List (FPath × SEntry)} (hw : DestWF fs0 r ld) (hs : SrcWF src ls) :
+    ∃ fs', syncDest fs0 r src ls ld = .ok fs' ∧
+      (∀ p, p ≠ [] → MirrorAt fs0 fs' r p (src p)) ∧
+      ∀ p b m, p ≠ [] → src p = some (.file b m) →
+        (∀ b', fs0.get (r ++ p) ≠ some (.file b' (.at m))) → fs'.get (r ++ p) = some (.file b (.at m)) := by
+  obtain ⟨fs', h1, -, -, hm⟩ := sync_mirror hw hs
+  refine ⟨fs', h1, hm, ?_⟩
+  intro p b m hp hsrc hne
+  have := hm p hp
+  rw [hsrc] at this
+  rcases this with h | ⟨b', h, -⟩
+  · exact h
+  · exact absurd h (hne b')
 
 end Rj.C08
